@@ -2,7 +2,7 @@
 From Coq Require Import List Bool Arith NArith ZArith String.
 From Coq.Strings Require Import Byte.
 From Verif.Base Require Import Bytes Outcome Str.
-From Verif.Model Require Import IE Codec Record SetB Msg.
+From Verif.Model Require Import IE Codec Record SetB Msg SetDec.
 From Verif.Driver Require Import Show SetShow.
 Import ListNotations.
 Local Open Scope string_scope.
@@ -92,7 +92,90 @@ Fixpoint C16_holds_on (ds : list dop) (all since : list op) (its : list item) : 
 Definition c16_wf (ds : list dop) : bool :=
   wf_order false (ops_of ds) && forms_hyp STemplate (ops_of ds).
 
+(* ---- the decoding variant (case prefix "DEC"): NewSet(true), Model/SetDec.v ---- *)
+Fixpoint dstep_n (s : dset) (o : op) (n : nat) : dset :=
+  match n with O => s | S n' => dstep_n (fst (dstep s o)) o n' end.
+Definition dsnap_of (s : dset) (a b c : N) : snap := snap_of (as_setb s) true a b c.
+
+(* one item per operation: the call's result, or a snapshot with the flag V (the same sequence
+   with every add forced to each of the three forms looks the same); the F slot is unused *)
+Fixpoint c16d_items (ds : list dop) (s : dset) (all : list op) : list item :=
+  match ds with
+  | [] => []
+  | DOp o n :: r =>
+      let k := Nat.max n 1 in
+      IRes (show_res (snd (dstep s o))) :: c16d_items r (dstep_n s o k) (repeat o k ++ all)%list
+  | DObs a b c :: r =>
+      let sn := dsnap_of s a b c in
+      let shown := show_snap sn in
+      let v := forallb (fun fm =>
+                 String.eqb (show_snap (dsnap_of (drun dnew (reform (repeat fm (List.length all)) (rev' all))) a b c))
+                            shown) forced_forms in
+      ISnap sn true v :: c16d_items r s all
+  end.
+
+Definition show_ditem (i : item) : string :=
+  match i with
+  | IRes s => s
+  | ISnap sn _ v => show_snap sn ++ " V " ++ show_bool v
+  end.
+Definition show_ditems (l : list item) : string := unwords (map show_ditem l).
+
+Fixpoint parse_ditems (fuel : nat) (l : list string) : option (list item) :=
+  match fuel with
+  | O => None
+  | S f =>
+      match l with
+      | [] => Some []
+      | "S" :: _ =>
+          match parse_snap l with
+          | Some (sn, "V" :: vb :: r) =>
+              option_map (fun t => ISnap sn true (String.eqb vb "T") :: t) (parse_ditems f r)
+          | _ => None
+          end
+      | x :: r => option_map (fun t => IRes x :: t) (parse_ditems f r)
+      end
+  end.
+
+
+(* what holds of a decoding set: no header; a data record has length 0 and the nil buffer, a
+   template record's buffer is its reported length; the set length is at least the sum of the
+   records' lengths (ResetSet does not clear it) and equal to it before the first reset *)
+Definition dsnap_ok (reset : bool) (sn : snap) : bool :=
+  String.eqb (sn_hdr sn) "-" &&
+  forallb (fun r => match rs_buf r with
+                    | Some (n, _) => N.eqb n (rs_rlen r) && (if rs_data r then N.eqb (rs_rlen r) 0 else true)
+                    | None => false
+                    end) (sn_recs sn) &&
+  (sum_rlen (sn_recs sn) <=? sn_len sn)%N &&
+  (reset || N.eqb (sn_len sn) (sum_rlen (sn_recs sn))).
+
+Fixpoint C16D_holds_on (ds : list dop) (all : list op) (its : list item) : bool :=
+  match ds, its with
+  | [], [] => true
+  | DOp o n :: r, IRes _ :: ir => C16D_holds_on r (repeat o (Nat.max n 1) ++ all)%list ir
+  | DObs _ _ _ :: r, ISnap sn _ v :: ir =>
+      dsnap_ok (has_reset (rev' all)) sn &&
+      implb (forms_hyp STemplate (rev' all)) v &&
+      C16D_holds_on r all ir
+  | _, _ => false
+  end.
+
+Definition c16d_run (case obs : list string) : string :=
+  match parse_dops (S (List.length case)) 1 case with
+  | Some (ds, []) =>
+      let m := c16d_items ds dnew [] in
+      show_ditems m ++ " | " ++
+      show_bool (match parse_ditems (S (List.length obs)) obs with
+                 | Some its => C16D_holds_on ds [] its
+                 | None => false
+                 end)
+      ++ " " ++ show_bool (forms_hyp STemplate (ops_of ds))
+  | _ => "PARSE-ERROR"
+  end.
+
 Definition c16_run (case obs : list string) : string :=
+  match case with "DEC" :: case' => c16d_run case' obs | _ =>
   match parse_dops (S (List.length case)) 1 case with
   | Some (ds, []) =>
       let m := c16_items ds new_set [] [] in
@@ -103,4 +186,5 @@ Definition c16_run (case obs : list string) : string :=
                  end)
       ++ " " ++ show_bool (c16_wf ds)
   | _ => "PARSE-ERROR"
+  end
   end.
